@@ -667,9 +667,9 @@ func runC08(env *vk.Env) {
 	var scs []frameScenario
 	for i := 0; i < env.Pick(300, 3000); i++ {
 		thr := []int{-1, 0, 1, 64, 256, 5000}[rng.Intn(6)]
-		b := frameBad{Thr: thr, Idlen: []int{1, 5}[rng.Intn(2)]}
-		b.Plen = []int{-1, -2000000000, 0, 1, 2, 5, 6, 7, 70, 300, 2097160, 2097200}[rng.Intn(12)]
-		b.Dlen = []int{-1, -2000000000, 0, 0, 1, 2, 4, 5, 6, thr - 1, thr, thr + 1, 300, 2097152, 2097160, 2147483647}[rng.Intn(16)]
+		b := frameBad{Thr: thr, Idlen: []int{1, 5, 1, 5, 2, 3, 4}[rng.Intn(7)]} // 2..4: a small id spelt in more bytes than needed
+		b.Plen = []int{-1, -2000000000, 0, 1, 2, 3, 4, 5, 6, 7, 70, 300, 2097160, 2097200}[rng.Intn(14)]
+		b.Dlen = []int{-1, -2000000000, 0, 0, 1, 2, 3, 4, 5, 6, thr - 1, thr, thr + 1, 300, 2097152, 2097160, 2147483647}[rng.Intn(17)]
 		b.Infl = []int{0, 1, 5, 6, b.Dlen - 1, b.Dlen, b.Dlen, b.Dlen + 1, 300}[rng.Intn(9)]
 		if b.Infl < 0 {
 			b.Infl = 0
